@@ -442,7 +442,7 @@ func firstRun(lines []ttml.Line, bare [][]bool) *ttml.Run {
 var sweepRates = [][2]int{{0, 0}, {25, 0}, {24, 0}, {30, 0}, {0, 1}, {0, 1000}, {0, 90000}, {0, 10000000}, {25, 90000}, {30, 1}}
 var sweepMsExtra = []int64{59999, 60000, 3599999, 3600000, 86399999, 359999999, 360000000, 1234567, 36000000, 4102}
 
-func genTimes(x *explore.C, nms int) Case {
+func genTimes(x *explore.C, nms, nfr int) Case {
 	rp := explore.Pick(x, "rates", sweepRates...)
 	fr, tr := rp[0], rp[1]
 	kinds := []int{0}
@@ -462,25 +462,22 @@ func genTimes(x *explore.C, nms int) Case {
 			inst = ttml.Ms(sweepMsExtra[k-nms])
 		}
 	case 1:
-		extra := []int64{int64(100*fr + 7), int64(3600 * fr), int64(3600*fr + fr - 1), int64(360000*fr - 1)}
-		k := x.Choose("frames", 4*fr+1+len(extra))
-		if k <= 4*fr {
+		extra := []int64{int64(3600 * fr), int64(3600*fr + fr - 1), int64(360000*fr - 1)}
+		k := x.Choose("frames", nfr+len(extra))
+		if k < nfr {
 			inst = ttml.Frames(int64(k), fr)
 		} else {
-			inst = ttml.Frames(extra[k-4*fr-1], fr)
+			inst = ttml.Frames(extra[k-nfr], fr)
 		}
 	case 2:
 		t := int64(tr)
-		vals := []int64{0, 1, 2, 3, 7, 10, 11, 100, 1001, t - 1, t, t + 1, 3 * t / 2, 2*t + 1, 60 * t, 3600 * t, 3600*t + 1, 86399*t + t/2, 123456789}
-		seen := map[int64]bool{}
-		var uniq []int64
-		for _, v := range vals {
-			if v >= 0 && !seen[v] {
-				seen[v] = true
-				uniq = append(uniq, v)
-			}
+		extra := []int64{t - 1, t, t + 1, 3 * t / 2, 2*t + 1, 60 * t, 3600 * t, 3600*t + 1, 86399*t + t/2, 123456789}
+		k := x.Choose("ticks", nfr+len(extra))
+		if k < nfr {
+			inst = ttml.Ticks(int64(k), tr)
+		} else {
+			inst = ttml.Ticks(extra[k-nfr], tr)
 		}
-		inst = ttml.Ticks(explore.Pick(x, "ticks", uniq...), tr)
 	}
 	syn := explore.Pick(x, "syntax", syntaxes(inst, fr, tr)...)
 	d := ttml.Doc{FrameRate: fr, TickRate: tr, Cues: []ttml.Cue{{Begin: inst, End: inst, Lines: []ttml.Line{{{Text: "x"}}}}}}
@@ -1003,10 +1000,10 @@ func CheckWrite(d ttml.Doc, windent int) (fs []Finding, outcome uint64) {
 func run(c *core.Ctx) {
 	thorough := c.Tier == core.Thorough
 	bound := 2
-	nms := 3000
+	nms, nfr := 3000, 1000
 	if thorough {
 		bound = 3
-		nms = 20000
+		nms, nfr = 20000, 10000
 	}
 	var cs Case
 	visit := func(sub string) func(x *explore.C) bool {
@@ -1051,9 +1048,9 @@ func run(c *core.Ctx) {
 			return c.Evals%4096 != 0 || !c.Expired()
 		}
 	}
-	// (1) time sweep: every millisecond of [0, nms) and tables of frame and tick counts, under ten
+	// (1) time sweep: every millisecond of [0, nms), every frame and tick count of [0, nfr) plus tables, under ten
 	// (frameRate, tickRate) pairs, in every syntax that expresses the instant exactly
-	explore.Explore(-1, func(x *explore.C) { cs = genTimes(x, nms) }, visit("times"))
+	explore.Explore(-1, func(x *explore.C) { cs = genTimes(x, nms, nfr) }, visit("times"))
 	// (2) core products of tiny grammars
 	lp, rp, ap := linesProfile(thorough), refsProfile(thorough), attrsProfile(thorough)
 	explore.Explore(-1, func(x *explore.C) { cs = gen(x, lp) }, visit("lines"))
@@ -1091,6 +1088,7 @@ func run(c *core.Ctx) {
 	}
 	c.ExtraMax["deviation_bound"] = float64(bound)
 	c.ExtraMax["time_sweep_ms"] = float64(nms)
+	c.ExtraMax["time_sweep_frames_ticks"] = float64(nfr)
 }
 
 func replay(sub string, raw json.RawMessage) (string, bool) {
@@ -1129,8 +1127,8 @@ func init() {
 		ID: "C03", Level: "exploration",
 		Rule: "a case = (ground-truth TTML model, rendering choices) chosen by the E1 explorer. Model: title, copyright, xml:lang, frameRate, tickRate, styles with parent links over every forest on <=3 nodes, regions with optional style reference, cues (<p begin end>) with style/region references and inline tts:* attributes, lines of runs with style references and inline attributes. Rendering: each boundary in every TTML time-expression syntax that expresses the instant exactly (hh:mm:ss, .f/.ff/.fff, hh:mm:ss:ff, h, m, s, ms, f, t), <br/> between spans / inside the preceding or following span / shared span / first / last / doubled, bare character data vs <span>, indentation and layout, namespace prefix variants, <br/> form, escaping form. Enumeration: exhaustive time sweep, three core products (lines, references, attributes) and every case within B deviations of the baseline over all choice points. Read: ReadFromTTML(render(model)) must denote the model (instants exact; frames/ticks floor or nearest ns). Write: WriteToTTML(model) with each indent option must denote the model to the library reader and to an independent encoding/xml token-walk decoder. Non-trivial = non-baseline case, distinct by (model, rendering)",
 		Scope: map[core.Tier]string{
-			core.Quick:    "time sweep (every ms of [0,3 s) + tables, 10 rate pairs, all exact syntaxes) + lines core (11 line shapes x 2 texts x plain/attr x bare/span x br placement x 2 indents x layout x 2 br forms x 2 prefix variants) + refs core (21 forests x <=2 regions x all style/region references) + attrs core (8 attribute subsets on style, region, p, span x 3 namespace variants) + deviation ball B=2 (<=2 cues; 24 attributes, 22 texts, 9 languages, 4 frame rates, 4 tick rates, 17+ instants)",
-			core.Thorough: "time sweep over [0,20 s) + larger cores (4 indents, 3 br forms, 4 write indents) + deviation ball B=3 (<=3 cues)",
+			core.Quick:    "time sweep (every ms of [0,3 s), every frame and tick count in [0,1000) + tables, 10 (frameRate, tickRate) pairs, all exact syntaxes) + lines core (11 line shapes x 2 texts x plain/attr x bare/span x br placement x 2 indents x layout x 2 br forms x 2 prefix variants) + refs core (21 forests x <=2 regions x all style/region references) + attrs core (8 attribute subsets on style, region, p, span x 3 namespace variants) + deviation ball B=2 (<=2 cues; 24 attributes, 22 texts, 9 languages, 4 frame rates, 4 tick rates, 17+ instants)",
+			core.Thorough: "time sweep over [0,20 s) and frame/tick counts [0,10000) + larger cores (4 indents, 3 br forms, 4 write indents) + deviation ball B=3 (<=3 cues)",
 		},
 		Assumptions: []string{"Go toolchain and standard library (encoding/xml is used generically by the independent decoder)", "independent reference codec engine/ref/ttml",
 			"outside the denotation (the format or the property sentence does not carry them): nested spans, raw newlines in character data, white-space-only character data between spans, leading XML white space (space, tab, CR, LF) of bare text at the start of a paragraph or on an indented line, dur=, fractions of more than 3 digits, f/t metrics without a frame/tick rate, xml:lang values outside the five mapped languages (not compared), Metadata.Framerate, sub-millisecond instants and line terminators inside a run in the write direction"},
